@@ -752,6 +752,11 @@ pub fn int_node(spelling: &str) -> Node
 pub fn minus_folds_into(spelling: &str) -> bool
 {
 	let (value, suffix, decimal) = decode_int(spelling);
+	if value == (i128::MAX as u128) + 1
+	{
+		// -2^127 is the minimum of i128: folded for unsuffixed and i128-suffixed literals
+		return suffix.is_none() || suffix.as_deref() == Some("i128");
+	}
 	if value == 0 || value > i128::MAX as u128
 	{
 		return false;
